@@ -23,7 +23,7 @@ def run(chk):
                 "plus forced inactive-constraint cases and allowance-zero cases; distinct by canonical JSON; non-trivial = the constrained "
                 "first N differ from the unconstrained first N, or the case is an inactive / allowance-zero reduction")
     exprs, meta = [], []
-    for it in range(450 if thorough else 100):
+    for it in range(450 if thorough else 160):
         B, n, m, N, L, s = R.gen_region_case(rng, *((12, 7) if thorough else (9, 5)), graded=0.15, tiny=0.3, faint=0.12)
         A = [int(i) for i in QR().fit(B).get_sensors()]
         k = min(n, m)
@@ -120,8 +120,9 @@ def run(chk):
                     p[j], p[ip] = p[ip], p[j]
                 cq = C.czlist(ints[-n:])
                 if not np.isinf(costs).any():        # (among sensors of infinite cost the order is arbitrary: no finite replay)
-                    exprs.append(f"ccqr_pivots {cq} {n} {k} [{'; '.join(C.czlist(r) for r in tab)}]")
-                    meta.append(({**case, "part": "CCQR replay"}, cc))
+                    # (the first N positions: among the prohibitive-cost sensors that follow, norm - cost is the same float for all of them)
+                    exprs.append(f"firstn {N} (ccqr_pivots {cq} {n} {k} [{'; '.join(C.czlist(r) for r in tab)}])")
+                    meta.append(({**case, "part": "CCQR replay"}, cc[:N]))
             table = R.table_from_steps(steps, n)
             kk = len(table)                     # = k unless the run produced non-finite norms in its late steps
             exprs.append(f"firstn {kk} (gqr_pivots {R.OPT[opt]} {R.coq_settings(L, A, N, s)} {n} {kk} [{'; '.join(C.czlist(r) for r in table)}])")
